@@ -5,9 +5,11 @@ import functools
 import itertools
 import math
 import operator
+import os
 import pathlib
 import pickle
 import random
+import threading
 from functools import lru_cache, partial, reduce
 from operator import or_
 
@@ -670,9 +672,14 @@ class DiskDict:
             if len(k) > 1:
                 # ensure subparent directories exist
                 fname.parent.mkdir(parents=True, exist_ok=True)
-            # write file!
-            with open(fname, "wb+") as f:
+            # write to a temporary file first, then atomically move it into
+            # place, so that an interrupted write never leaves a partial entry
+            tmpname = fname.with_name(
+                f".{fname.name}.{os.getpid()}.{threading.get_ident()}.tmp"
+            )
+            with open(tmpname, "wb") as f:
                 pickle.dump(v, f)
+            os.replace(tmpname, fname)
 
     def __getitem__(self, k):
         try:
